@@ -1015,21 +1015,28 @@ func (view *View) replace(ctx context.Context, flags *option.Flags, fields []par
 		replacedRecord[i] = false
 	}
 	replaceMtx := &sync.Mutex{}
-	var replaced = func(idx int) {
+	var replaced = func(indices []int) {
 		replaceMtx.Lock()
-		replacedRecord[idx] = true
+		for _, idx := range indices {
+			replacedRecord[idx] = true
+		}
 		replacedCount++
 		replaceMtx.Unlock()
 	}
 	if err := NewGoroutineTaskManager(view.RecordLen(), -1, flags.CPU).Run(ctx, func(index int) error {
+		// Every given row whose key matches this record updates it, in the given order (the last one
+		// wins); none of them is a row to insert. The record is counted once.
+		var matched []int
 		for j, rsv := range sortValuesInInsertRecords {
 			if sortValuesInEachRecord[index].EquivalentTo(rsv) {
 				for _, fidx := range updateIndices {
 					view.RecordSet[index][fidx] = records[j][fidx]
 				}
-				replaced(j)
-				break
+				matched = append(matched, j)
 			}
+		}
+		if 0 < len(matched) {
+			replaced(matched)
 		}
 		return nil
 	}); err != nil {
